@@ -419,6 +419,7 @@ pub fn c14_worlds(tier: Tier) -> Vec<WorldSpec> {
         Op::Take(2),
         Op::Skip(1),
         Op::Skip(2),
+        Op::Concat(0),
         Op::Concat(1),
         Op::Concat(2),
         Op::Concat(3),
